@@ -376,6 +376,28 @@ def check(case) -> core.Out:
         m2 = eval(rp, {"UBXMessage": pyubx2.UBXMessage, "__builtins__": {}})  # noqa: S307
         if m2.serialize() != frame:
             bad("repr", f"eval(repr(m)).serialize() differs; repr={rp[:80]}")
+        if out.dig % 4 == 0:
+            # the same frame handed over as a bytearray / memoryview (a receive buffer): if
+            # parse accepts it, the same relation holds, also after the caller reuses the buffer
+            for mk, lab in ((bytearray, "bytearray"), (lambda f: memoryview(bytearray(f)), "memoryview")):
+                buf = mk(frame)
+                try:
+                    mb = pyubx2.UBXReader.parse(buf, msgmode=mode, parsebitfield=bf, validate=case.get("validate", 1))
+                except Exception:  # noqa - not accepted in this form: outside the property
+                    classes.append(f"input={lab}:rejected")
+                    continue
+                classes.append(f"input={lab}:accepted")
+                if mb.serialize() != frame or (mb.payload or b"") != payload:
+                    bad(f"input-{lab}:serialize", f"parse({lab}) serializes to {bytes(mb.serialize())[:40].hex()}")
+                for i in range(len(buf)):
+                    buf[i] = 0xEE
+                ser2 = mb.serialize()
+                if not isinstance(ser2, bytes) or ser2 != frame:
+                    bad(f"input-{lab}:buffer-shared", "serialize() changes when the caller reuses the buffer it parsed from")
+                m3 = eval(repr(mb), {"UBXMessage": pyubx2.UBXMessage,  # noqa: S307
+                                      "__builtins__": {"bytearray": bytearray, "bytes": bytes}})
+                if m3.serialize() != frame:
+                    bad(f"input-{lab}:repr", "eval(repr(m)).serialize() differs")
     except Exception as err:  # noqa
         bad(f"raises:{type(err).__name__}", f"{type(err).__name__}: {err}"[:200])
     return out
